@@ -92,3 +92,27 @@ Theorem jpeg_dims_terminates d off :
 Proof.
   intros Hb Ho. apply jpeg_dims_fuel; [exact Hb | unfold fuel_for; lia | unfold fuel_for; lia].
 Qed.
+
+Lemma ooxml_jpeg_dims_fuel d : bytes_ok d = true ->
+  forall fuel i, (Z.of_nat fuel > len d - i) -> (fuel >= 1)%nat -> ooxml_jpeg_dims fuel d i <> None.
+Proof.
+  intros Hb. induction fuel as [|f IH]; intros i Hf H1; [lia|].
+  cbn [ooxml_jpeg_dims].
+  destruct (i + 4 <=? len d) eqn:Hg; [|discriminate].
+  apply Z.leb_le in Hg.
+  destruct (negb (byte_at d i =? 255)); [apply IH; lia|].
+  destruct ((byte_at d (i + 1) =? 217) || (byte_at d (i + 1) =? 218)); [discriminate|].
+  destruct (u16be d (i + 2) <? 2) eqn:Hl; [discriminate|].
+  apply Z.ltb_ge in Hl.
+  destruct (is_sof (byte_at d (i + 1)) && (i + 2 + u16be d (i + 2) <=? len d)); [discriminate|].
+  destruct (Z_lt_le_dec (len d) (i + 2 + u16be d (i + 2))) as [Hbig|Hsmall].
+  - destruct f as [|f']; [lia|]. cbn [ooxml_jpeg_dims].
+    destruct (i + 2 + u16be d (i + 2) + 4 <=? len d) eqn:E; [apply Z.leb_le in E; lia | discriminate].
+  - apply IH; lia.
+Qed.
+
+Theorem ooxml_jpeg_dims_terminates d i :
+  bytes_ok d = true -> 0 <= i -> ooxml_jpeg_dims (fuel_for d i) d i <> None.
+Proof.
+  intros Hb Ho. apply ooxml_jpeg_dims_fuel; [exact Hb | unfold fuel_for; lia | unfold fuel_for; lia].
+Qed.
